@@ -13,6 +13,12 @@ _state = I + "tracing/state.py"
 
 M = {
     "C24": [
+        ("a function tensor has no flags", I + "tys/ty.py",
+         "    return FunctionType(inputs, row_to_type(outputs), unitary_flags=unitary_flags)", "    return FunctionType(inputs, row_to_type(outputs))", "R-C24.2"),
+        ("a function tensor has the flags ANY component has", I + "tys/ty.py",
+         "        unitary_flags &= fun_ty.unitary_flags", "        unitary_flags |= fun_ty.unitary_flags", "R-C24.2"),
+        ("a bound-method value has no flags", _ec,
+         "                unitary_flags=func.ty.unitary_flags,\n            )\n            return with_loc(node, PartialApply", "            )\n            return with_loc(node, PartialApply", "R-C24.2"),
         ("barrier does not look at its arguments", I + "checker/unitary_checker.py",
          "        # Barrier is always allowed, but its arguments still have to be checked\n        for arg in node.args:\n            self.visit(arg)", "        pass", "R-C24.8"),
     ],
@@ -30,6 +36,8 @@ M = {
          "    rounds = 0\n    while rounds < len(subst) and not all(t.unsolved_vars.isdisjoint(subst) for t in subst.values()):\n        subst = {v: t.substitute(subst) for v, t in subst.items()}\n        rounds += 1\n    return subst", None),
     ],
     "C06": [
+        ("a comprehension may consume a value it borrowed before", _lc,
+         "                        if later_use is not None and not leaf.ty.copyable:", "                        if False and later_use is not None and not leaf.ty.copyable:", "R-C06.2"),
         ("nested def binds its name without the checks of an assignment", _lc,
          "        self._check_assign_targets([with_loc(node, PlaceNode(place=func_var))])", "        self.scope.assign(func_var)", "R-C06.2"),
         ("leak loop looks at shadowed places again", _lc,
